@@ -6,8 +6,9 @@ cd /verif; pass=0; fail=0
 while IFS=$'\t' read -r name kind props; do
   [ -n "${1:-}" ] && [[ "$name" != *"$1"* ]] && continue
   patch=mutations/$name.patch; [ $kind = benign ] && patch=mutations/benign/$name.patch
-  out=$(LINES_MAX=3 WIDTH=160 scripts/try_patch.sh /verif/$patch ${props//,/ } 2>&1)
+  out=$(LINES_MAX=12 WIDTH=200 scripts/try_patch.sh /verif/$patch ${props//,/ } 2>&1)
   if echo "$out" | grep -q "DOES NOT APPLY"; then echo "SKIP  $name (does not apply)"; continue; fi
+  if echo "$out" | grep -q "cannot analyse"; then fail=$((fail+1)); echo "INVALID $name (the patched tree does not type-check: not a mutation)"; continue; fi
   caught=$(echo "$out" | grep -c "exit=1")
   if [ $kind = breaking ] && [ $caught -ge 1 ]; then pass=$((pass+1)); echo "ok    $name caught by $(echo "$out" | grep -o ': C[0-9]*\.[0-9]*\|: RT\.[0-9]*' | sort -u | tr -d ': ' | paste -sd,)";
   elif [ $kind = benign ] && [ $caught -eq 0 ]; then pass=$((pass+1)); echo "ok    $name silent";
